@@ -1,7 +1,7 @@
 (* Result types of operators on integral operands (C09).
    Model of SymbolDatabase::setValueType(Token*, const ValueType&) (lib/symboldatabase.cpp): the
    `<<|>>` branch, the final "integral x integral" branch (arithmetical, bit, ternary, inc/dec,
-   assignment operators), the ternary isTypeEqual shortcut (type equal, sign ignored); of setValueTypeInTokenList for
+   assignment operators), the ternary shortcut (type and sign equal); of setValueTypeInTokenList for
    comparison/logical operators and for integer literals.  The integer types are ranked by the
    position of their enumerator in ValueType::Type (Gen_TypeRank.v, regenerated from the header).
    Executable definitions only. *)
@@ -42,8 +42,8 @@ Definition result_type (op : opk) (t1 t2 : vt) : vt :=
       if (type_rank (vt_type t1) <? rank_BOOL) || (rank_INT <=? type_rank (vt_type t1)) then t1 else int_signed
   | OArith | OTernary =>
       let tern := match op with OTernary => true | _ => false end in
-      (* '?' : ValueType::isTypeEqual compares type (and pointer, scope ...) but not the sign -> *vt1 *)
-      if tern && (type_rank (vt_type t1) =? type_rank (vt_type t2)) then t1
+      (* '?' : isTypeEqual (type, pointer, scope ...) and, since /repo 513f3e3, the same sign -> *vt1 *)
+      if tern && vt_eqb t1 t2 then t1
       else
         let r :=
           if type_rank (vt_type t2) <? type_rank (vt_type t1) then t1
